@@ -219,8 +219,10 @@ def r201(ctx, classes):
     for r in [n for n in walk_local(helper) if isinstance(n, ast.Return)]:
         fl = flow_of(helper)
         for kind, node, at, extra in fl.sources(r.value, fl.cfg.node_of(r)):
-            if kind == "expr" and isinstance(node, ast.Call) and last_name(node) in ("zeros", "empty", "array", "copy", "zeros_like"):
+            if kind == "expr" and isinstance(node, ast.Call) and last_name(node) in ("zeros", "empty", "array", "copy", "zeros_like", "where"):
                 fresh = True
+            if kind == "expr" and isinstance(node, ast.BinOp):
+                fresh = True  # array arithmetic allocates its result
     if fresh:
         ctx.ok("R-20.1", helper, "pbc_dist_coordinate returns a freshly allocated array")
     else:
@@ -403,8 +405,172 @@ def r203(ctx, classes):
         ctx.bad(rid, rev, "Path.reverse does not recompute velocity-dependent order parameters after reversing velocities")
 
 
+def _rounding_vanishes(S, e, c):
+    """Every rounding atom of e is 0 for |d| <= c*L (c <= 1/2): rint/round(q*d/L) with |q|*c <= 1/2,
+    floor(q*d/L + 1/2), ceil(q*d/L - 1/2)."""
+    from fractions import Fraction
+    for m in e:
+        for a, _ in m:
+            if isinstance(a, tuple) and a[0] == "fn" and a[1] in S.EQUIVARIANT:
+                arg = dict(a[3][0])
+                lin = arg.pop((("d", 1), ("iL", 1)), None)
+                off = arg.pop((), Fraction(0))
+                if arg or lin is None:
+                    return False
+                want = {"floor": Fraction(1, 2), "ceil": Fraction(-1, 2)}.get(a[1], Fraction(0))
+                if off != want or abs(lin) * c > Fraction(1, 2):
+                    return False
+    return True
+
+
+def r207(ctx):
+    """The minimum-image helper is invariant under shifting the raw distance by any integer
+    number of box lengths (symbolic: sa/symalg.py)."""
+    from fractions import Fraction
+
+    from .. import symalg as S
+
+    rid = "R-20.7"
+    f = ctx.tree.func(ORDERP, "pbc_dist_coordinate")
+    params = [a.arg for a in f.args.args]
+    if len(params) < 2:
+        raise AnalysisError("R-20.7: pbc_dist_coordinate does not take (distance, box_lengths)")
+    env = {params[0]: S.sym("d"), params[1]: S.sym("L")}
+    tr = S.Translator(env)
+    rets = [r for r in walk_local(f) if isinstance(r, ast.Return) and r.value is not None]
+    if len(rets) != 1:
+        raise AnalysisError("R-20.7: pbc_dist_coordinate has not exactly one return")
+    result_name = rets[0].value.id if isinstance(rets[0].value, ast.Name) else None
+
+    def bind_loop(L):
+        it = L.iter
+        tgt = L.target
+        if isinstance(it, ast.Call) and last_name(it) == "enumerate" and it.args and isinstance(tgt, ast.Tuple) and len(tgt.elts) == 2:
+            it, tgt = it.args[0], tgt.elts[1]
+        if isinstance(it, ast.Call) and last_name(it) == "zip" and isinstance(tgt, ast.Tuple) and len(tgt.elts) == len(it.args):
+            for t_, a_ in zip(tgt.elts, it.args):
+                if isinstance(t_, ast.Name):
+                    try:
+                        env[t_.id] = tr.tr(a_)
+                    except S.Undecidable:
+                        pass
+            return
+        if isinstance(tgt, ast.Name):
+            try:
+                env[tgt.id] = tr.tr(it)
+            except S.Undecidable:
+                pass  # an index over range(...): not a symbol
+
+    stores = []  # (expr, node, [(test, truth)])
+
+    def add_store(value, st, guards):
+        if isinstance(value, ast.Call) and last_name(value) == "where" and len(value.args) == 3:
+            add_store(value.args[1], st, guards + [(value.args[0], True)])
+            add_store(value.args[2], st, guards + [(value.args[0], False)])
+        else:
+            stores.append((value, st, list(guards)))
+
+    def visit(stmts, guards):
+        for st in stmts:
+            if isinstance(st, ast.Assign) and len(st.targets) == 1:
+                t_ = st.targets[0]
+                if isinstance(t_, ast.Name) and t_.id != result_name:
+                    try:
+                        env[t_.id] = tr.tr(st.value)
+                    except S.Undecidable:
+                        pass
+                    continue
+                if (isinstance(t_, ast.Subscript) and isinstance(t_.value, ast.Name) and t_.value.id == result_name) or (isinstance(t_, ast.Name) and t_.id == result_name):
+                    if isinstance(st.value, ast.Call) and last_name(st.value) in ("zeros", "empty", "zeros_like", "empty_like") :
+                        continue  # allocation of the result
+                    add_store(st.value, st, guards)
+                    continue
+            elif isinstance(st, (ast.For,)):
+                bind_loop(st)
+                visit(st.body, guards)
+            elif isinstance(st, ast.If):
+                visit(st.body, guards + [(st.test, True)])
+                visit(st.orelse, guards + [(st.test, False)])
+            elif isinstance(st, ast.Return):
+                if not isinstance(st.value, ast.Name):
+                    add_store(st.value, st, guards)
+            elif isinstance(st, ast.Expr) and isinstance(st.value, ast.Constant):
+                continue
+            elif isinstance(st, (ast.AugAssign, ast.While, ast.With, ast.Try)):
+                raise AnalysisError(f"R-20.7: statement form {type(st).__name__} in pbc_dist_coordinate not modelled")
+
+    visit(f.body, [])
+    if not stores:
+        raise AnalysisError("R-20.7: no store to the wrapped distance found")
+
+    def region(guards):
+        """'far' (|d| > c L), 'near' (|d| <= c L) or 'all'; returns (kind, c)."""
+        kind, cval = "all", None
+        for test, truth in guards:
+            if not (isinstance(test, ast.Compare) and len(test.ops) == 1):
+                raise S.Undecidable("guard is not a single comparison")
+            l, r, op = test.left, test.comparators[0], test.ops[0]
+            if isinstance(op, (ast.Lt, ast.LtE)):
+                l, r = r, l
+                op = ast.Gt() if isinstance(op, ast.Lt) else ast.GtE()
+            if not isinstance(op, (ast.Gt, ast.GtE)):
+                raise S.Undecidable("guard comparator")
+            if not (isinstance(l, ast.Call) and last_name(l) in ("abs", "fabs", "absolute") and S.key(tr.tr(l.args[0])) == S.key(S.sym("d"))):
+                raise S.Undecidable("guard does not test |distance|")
+            rp = tr.tr(r)
+            cl = S.as_L_power(rp)
+            if cl is None or cl[1] != 1 or cl[0] <= 0:
+                raise S.Undecidable("guard bound is not c*L")
+            kind, cval = ("far" if truth else "near"), cl[0]
+        return kind, cval
+
+    far = near = None
+    try:
+        for expr, node, guards in stores:
+            kind, c = region(guards)
+            e = tr.tr(expr)
+            if kind in ("far", "all"):
+                far = (e, node, c, kind)
+            else:
+                near = (e, node, c)
+    except S.Undecidable as exc:
+        raise AnalysisError(f"R-20.7: cannot translate pbc_dist_coordinate: {exc}")
+    if far is None:
+        ctx.bad(rid, f, "pbc_dist_coordinate never wraps: distances beyond half a box length are returned unchanged")
+        return
+    e, node, c, kind = far
+    # (1) growth: a periodic function of d has slope 0
+    try:
+        sl = S.slope_in_d(e)
+    except S.Undecidable as exc:
+        raise AnalysisError(f"R-20.7: growth of the wrap expression undecided: {exc}")
+    if sl:
+        ctx.bad(rid, node, f"the wrapped distance `{short(node, 60)}` grows like ({S.show(sl)})*d: it subtracts a bounded correction, not the multiple of the box length nearest to the distance, so a raw distance of more than 1.5 box lengths (an atom shifted by two or more box vectors, unwrapped trajectories) is not mapped to the minimum image - the periodic order parameters are not invariant under shifting an atom by a box vector",
+                construct="wrap expression " + short(node, 70), detail={"symbolic": S.show(e), "slope": S.show(sl)})
+        return
+    # (2) invariance proof by equivariance of the rounding function
+    diff = S.add(S.substitute_shift(e), e, -1)
+    if diff:
+        raise AnalysisError(f"R-20.7: w(d + k*L) - w(d) = {S.show(diff)} could not be reduced to 0 with the equivariance rules known to the checker (cannot decide)")
+    ctx.ok(rid, node, f"w(d) = {S.show(e)} satisfies w(d + k*L) = w(d) for every integer k (rounding commutes with integer shifts; L*(1/L) = 1)")
+    # (3) the unwrapped region
+    if near is not None:
+        ne, nnode, nc = near
+        if nc > Fraction(1, 2):
+            ctx.bad(rid, nnode, f"distances up to {nc} box lengths are returned unwrapped: beyond half a box length the nearest image is another one", construct="unwrapped region bound " + str(nc))
+        elif not _rounding_vanishes(S, e, nc):
+            ctx.bad(rid, nnode, "the rounding term of the wrap formula is not zero on the whole unwrapped region (it rounds down/up instead of to the nearest integer): the two branches do not describe one periodic function, and the wrapped value is not the nearest image", construct="rounding term does not vanish on the near region")
+        elif S.key(ne) != S.key(S.zero_rounding(e)):
+            ctx.bad(rid, nnode, f"inside half a box length the helper returns `{S.show(ne)}` although the wrap formula reduces to `{S.show(S.zero_rounding(e))}` there: the two branches do not describe one periodic function", construct="near-branch value " + short(nnode, 60))
+        else:
+            ctx.ok(rid, nnode, f"for |d| <= {nc}*L the helper returns the restriction of the same function (the rounding term vanishes there)")
+    elif kind == "far":
+        ctx.bad(rid, f, "no value is stored for distances within half a box length")
+
+
 def run(ctx):
     ctx.rule("R-20.6", "no `for` variable of the order-parameter code is read after its loop has ended", floor=2)
+    ctx.rule("R-20.7", "the minimum-image helper w satisfies w(d + k*L) = w(d) for every integer k: symbolic proof by equivariance of the rounding function, asymptotic-slope refutation otherwise", floor=1)
     ctx.rule("R-20.1", "calculate() / calculate_order() / pbc helper never modify the system or arrays aliasing it (NumPy view/copy table)", floor=8)
     ctx.rule("R-20.2", "every box handed to pbc_dist_coordinate is system.box[:3]", floor=4)
     ctx.rule("R-20.3", "velocity dependence declared iff calculate reads system.vel; Path.reverse recomputes for velocity-dependent parameters", floor=6)
@@ -418,11 +584,20 @@ def run(ctx):
     ctx.attempt(r203, ctx, classes)
     ctx.attempt(r204, ctx, classes)
     ctx.attempt(r205, ctx)
+    ctx.attempt(r207, ctx)
     from .shared import stale_loop_variable
     ctx.attempt(stale_loop_variable, ctx, "R-20.6", [ORDERP], None, " (another atom / component than intended enters the order parameter)")
 
 
 VARIANTS = [
+    B("c20-wrap-one-box-length", ORDERP, "            pbcdist[i] = distance[i] - np.rint(distance[i] * ilength) * length", "            pbcdist[i] = distance[i] - np.copysign(length, distance[i])", "R-20.7", control=True, why="seeded C20_c"),
+    B("c20-wrap-missing-length-factor", ORDERP, "            pbcdist[i] = distance[i] - np.rint(distance[i] * ilength) * length", "            pbcdist[i] = distance[i] - np.rint(distance[i] * ilength)", "R-20.7"),
+    B("c20-wrap-threshold-three-quarters", ORDERP, "        if np.abs(distance[i]) > 0.5 * length:", "        if np.abs(distance[i]) > 0.75 * length:", "R-20.7"),
+    B("c20-wrap-floor", ORDERP, "            pbcdist[i] = distance[i] - np.rint(distance[i] * ilength) * length", "            pbcdist[i] = distance[i] - np.floor(distance[i] * ilength) * length", "R-20.7"),
+    B("c20-wrap-near-branch-zero", ORDERP, "        else:\n            pbcdist[i] = distance[i]\n    return pbcdist", "        else:\n            pbcdist[i] = 0.0\n    return pbcdist", "R-20.7"),
+    K("c20-keep-wrap-vectorised", ORDERP, "    box_ilengths = 1.0 / box_lengths\n    pbcdist = np.zeros(distance.shape)\n    for i, (length, ilength) in enumerate(zip(box_lengths, box_ilengths)):\n        if np.abs(distance[i]) > 0.5 * length:\n            pbcdist[i] = distance[i] - np.rint(distance[i] * ilength) * length\n        else:\n            pbcdist[i] = distance[i]\n    return pbcdist", "    return distance - np.rint(distance / box_lengths) * box_lengths"),
+    K("c20-keep-wrap-floor-half", ORDERP, "            pbcdist[i] = distance[i] - np.rint(distance[i] * ilength) * length", "            pbcdist[i] = distance[i] - length * np.floor(distance[i] / length + 0.5)"),
+    K("c20-keep-wrap-where", ORDERP, "    pbcdist = np.zeros(distance.shape)\n    for i, (length, ilength) in enumerate(zip(box_lengths, box_ilengths)):\n        if np.abs(distance[i]) > 0.5 * length:\n            pbcdist[i] = distance[i] - np.rint(distance[i] * ilength) * length\n        else:\n            pbcdist[i] = distance[i]\n    return pbcdist", "    pbcdist = np.where(np.abs(distance) > 0.5 * box_lengths, distance - np.round(distance * box_ilengths) * box_lengths, distance)\n    return pbcdist"),
     B("c20-puckering-center-after-loop", ORDERP, "        for i in range(6):\n            pos[i, :] -= center", "        for i in range(6):\n            pass\n        pos[i, :] -= center", "R-20.6", control=True),
     B("c20-puckering-slice-view", ORDERP, "        pos = system.pos[list(self.index)]", "        pos = system.pos[self.index[0] : self.index[0] + 6]", "R-20.1", control=True),
     B("c20-dihedral-inplace-on-view", ORDERP, "        pos = system.pos\n        vector1 = pos[self.index[0]] - pos[self.index[1]]", "        pos = system.pos\n        pos -= pos[self.index[0]]\n        vector1 = pos[self.index[0]] - pos[self.index[1]]", "R-20.1"),
